@@ -11,6 +11,7 @@ R/V : universe meshes x cell subsets x tag subsets and random compositions (leng
 import dataclasses
 import itertools
 import json
+import os
 
 import numpy as np
 
@@ -47,6 +48,13 @@ def make_mesh(spec):
         for name, b in spec['bnd'].items():
             f = np.array(b['f'], dtype=np.int64)
             bnd[name] = f if b.get('ori') is None else OrientedBoundary(f, np.array(b['ori'], dtype=np.int64))
+    if spec.get('bndv'):
+        # facets given as vertex tuples (TLC-exported scenarios): look the ids up in the code's own facet table
+        # (as vertex SETS: the code keys a prism's triangles with one vertex repeated)
+        key = {frozenset(int(v) for v in m.facets[:, f]): f for f in range(m.facets.shape[1])}
+        bnd = dict(bnd or {})
+        for name, fv in spec['bndv'].items():
+            bnd[name] = np.array([key[frozenset(v)] for v in fv], dtype=np.int64)
     sub = None
     if spec.get('sub') is not None:
         sub = {name: np.array(ix, dtype=np.int64) for name, ix in spec['sub'].items()}
@@ -729,22 +737,58 @@ def scenario(sid, rec):
 
 
 def model(ctx):
-    env = {'TIER': ctx.tier}
+    """M: two configurations of MC_C18; returns the TLC-exported scenarios for R."""
+    out = os.path.join(ctx.scratch, 'c18_export.json')
+    env = {'TIER': ctx.tier, 'OUT_FILE': out}
     to = 1500 if ctx.tier == 'thorough' else 400
     ctx.model_must_hold('MC_C18', 'MC_C18.cfg', env=env, timeout=to,
                         label='transcriptions of restrict/remove/+/unused/to_meshtri/to_meshtet satisfy the clauses')
-    ctx.model_must_hold('MC_C18', 'MC_C18_dup.cfg', env=env, timeout=to,
+    ctx.model_must_hold('MC_C18', 'MC_C18_dup.cfg', env={'TIER': ctx.tier, 'OUT_FILE': ''}, timeout=to,
                         label='+ remove_duplicate_nodes as transcribed from today\'s code (finding #15)')
+    recs = []
+    if os.path.exists(out):
+        docs = json.load(open(out))
+        docs.sort(key=lambda d: json.dumps(d, sort_keys=True))
+        rng = np.random.default_rng(ctx.seed + 1018)
+        limit = 5000 if ctx.tier == 'thorough' else 700
+        if len(docs) > limit:
+            docs = [docs[j] for j in sorted(rng.choice(len(docs), limit, replace=False))]
+        for d in docs:
+            spec = {'kind': d['kind'], 'p': np.array(d['p'], dtype=float).T.tolist(),
+                    't': (np.array(d['t']).T - 1).tolist(), 'bnd': None,
+                    'sub': {'s': [int(k) - 1 for k in d['sub']]},
+                    'bndv': {'b': [[int(v) - 1 for v in f] for f in d['fv']]}}
+            op = d['op']
+            if op in ('restrict', 'remove_elements'):
+                steps = [{'op': op, 'elements': [int(k) - 1 for k in d['elements']]}]
+            elif op == 'add':
+                # the model's second operand: the same cells shifted by the extent of the mesh along x
+                p = np.array(spec['p'])
+                q = p.copy()
+                q[0] += p[0].max() - p[0].min()
+                steps = [{'op': 'add', 'other': {'kind': d['kind'], 'p': q.tolist(), 't': spec['t'], 'bnd': None,
+                                                 'sub': None}}]
+            elif op == 'remove_unused_nodes':
+                lo = np.array(spec['p']).min(axis=1)
+                n = len(spec['p'][0])
+                steps = [{'op': 'setup', 'what': 'inject_unused', 'pos': [0, n + 1],
+                          'pts': [(lo - 1).tolist(), (lo - 2).tolist()]}, {'op': op}]
+            else:
+                steps = [{'op': op, 'withx': 1} if op.startswith('to_meshtri') else {'op': op}]
+            recs.append({'driver': 'surgery', 'mesh': spec, 'steps': steps, 'family': 'TLC-universe'})
+    return recs
 
 
 def run(ctx):
-    model(ctx)
-    recs = generate(ctx.tier, ctx.seed)
+    recs = model(ctx)
+    n_tlc = len(recs)
+    recs += generate(ctx.tier, ctx.seed)
     scs = [scenario(f'C18-{k}', r) for k, r in enumerate(recs)]
     ctx.validate('TraceC18', scs)
     keys = {json.dumps(r, sort_keys=True) for r in recs
             if np.array(r['mesh']['t']).ndim == 2 and np.array(r['mesh']['t']).shape[1] >= 2}
     ctx.notes['distinct_nontrivial'] = len(keys)
+    ctx.notes['scenarios_from_tlc_universe'] = n_tlc
     ctx.notes['events_per_operation'] = {k[3:]: ctx.clause_counts.pop(k) for k in list(ctx.clause_counts)
                                          if k.startswith('op_')}
     ctx.notes['skipped_geometric'] = sum(1 for s in scs for e in s['events'] if e['err'].startswith('harness:'))
